@@ -122,7 +122,7 @@ func (r *Run) RunTaskGroup(label, name string, args []any) {
 		return
 	}
 	evals, viols := 0, 0
-	for _, x := range res {
+	for i, x := range res {
 		if x.Herr != "" && r.HarnessErr == nil {
 			r.HarnessErr = fmt.Errorf("%s: %s", label, x.Herr)
 		}
@@ -139,7 +139,7 @@ func (r *Run) RunTaskGroup(label, name string, args []any) {
 		for _, v := range x.Viols {
 			viols++
 			if len(r.Found) < 6 {
-				r.Found = append(r.Found, Found{Spec: Spec{Name: label, Kind: "task"}, Msg: v})
+				r.Found = append(r.Found, Found{Spec: Spec{Name: label, Kind: "task"}, Msg: v, Kind: "task", Data: map[string]any{"task": name, "arg": args[i]}})
 			}
 		}
 		for k, v := range x.Counters {
@@ -471,7 +471,11 @@ func Main(args []string) int {
 			}
 		}
 		nviol++
-		p := writeReplay(id, nviol, ReplayFile{Property: id, Spec: f.Spec, Path: f.Path, Msg: f.Msg})
+		rf := ReplayFile{Property: id, Spec: f.Spec, Path: f.Path, Msg: f.Msg, Kind: f.Kind}
+		if f.Data != nil {
+			rf.Data, _ = json.Marshal(f.Data)
+		}
+		p := writeReplay(id, nviol, rf)
 		fmt.Printf("  violation: %s\n    history: [%s]\n    space: %s\n", f.Msg, OpsString(f.Path), f.Spec.Name)
 		fmt.Printf("VIOLATION property=%s replay=%s\n", id, p)
 	}
@@ -502,6 +506,9 @@ func doReplay(id, file string) int {
 		fmt.Println("no replay handler for kind", rf.Kind)
 		return 2
 	}
+	if len(rf.Path) == 0 {
+		return replayHandlers["message"](rf)
+	}
 	msg, err := ReplayPath(rf.Spec, rf.Path)
 	if err != nil {
 		fmt.Println("HARNESS ERROR:", err)
@@ -517,6 +524,42 @@ func doReplay(id, file string) int {
 	return 1
 }
 
-var replayHandlers = map[string]func(ReplayFile) int{}
+var replayHandlers = map[string]func(ReplayFile) int{
+	// task: re-run the task (same argument) in this process and report what it finds
+	"task": func(rf ReplayFile) int {
+		var d struct {
+			Task string          `json:"task"`
+			Arg  json.RawMessage `json:"arg"`
+		}
+		if err := json.Unmarshal(rf.Data, &d); err != nil {
+			fmt.Println("bad replay file:", err)
+			return 2
+		}
+		h, ok := taskHandlers[d.Task]
+		if !ok {
+			fmt.Println("unknown task (wrong build variant?)", d.Task)
+			return 2
+		}
+		res := h(d.Arg)
+		if res.Herr != "" {
+			fmt.Println("HARNESS ERROR:", res.Herr)
+			return 2
+		}
+		fmt.Printf("task %s %s: %d evaluations\n", d.Task, d.Arg, res.Evals)
+		for _, v := range res.Viols {
+			fmt.Println("violation:", v)
+		}
+		if len(res.Viols) > 0 {
+			fmt.Printf("VIOLATION property=%s replay=(task above)\n", rf.Property)
+			return 1
+		}
+		fmt.Println("no violation on replay")
+		return 0
+	},
+	"message": func(rf ReplayFile) int {
+		fmt.Println("recorded violation (re-run the check to reproduce):", rf.Msg)
+		return 1
+	},
+}
 
 func time_After(t time.Time) bool { return time.Now().After(t) }
